@@ -351,6 +351,13 @@ func genStatic(c *lib.Ctx, reps int, base int) []*Case {
 		if rng && size > 200 {
 			cs.Hdr = []string{"Range: bytes=10-109"}
 			rs = "/range"
+		} else if (mask+size+len(out))%5 == 0 {
+			// a conditional request whose precondition fails: answered without
+			// the file, so whatever was announced about the file's coding and
+			// length must not be on the answer
+			cs.Hdr = []string{[]string{`If-Match: "verif-no-such-etag"`, "If-Unmodified-Since: Mon, 02 Jan 2006 15:04:05 GMT"}[len(out)%2]}
+			cs.Status, cs.Pattern = 412, "static-precondition"
+			rs = "/precondition-fails"
 		}
 		var sib []string
 		for b := 0; b < 3; b++ {
@@ -362,6 +369,9 @@ func genStatic(c *lib.Ctx, reps int, base int) []*Case {
 		cs.Canon = fmt.Sprintf("static/m%d/%s/%s/size%d/%s%s", mask, ae, ext, size, dir, rs)
 		if rs == "" {
 			cs.Expect = textBody(staticTag(size, ext), size)
+		}
+		if cs.Pattern == "static-precondition" {
+			cs.Expect = nil
 		}
 		out = append(out, cs)
 	}
@@ -678,6 +688,22 @@ func (rn *runner) worker(cases <-chan *Case, wg *sync.WaitGroup) {
 			// one retry on a fresh connection (keep-alive connection
 			// may have been closed by the server between exchanges)
 			P = k.Do("GET", cs.request(plainHost))
+		}
+		if P.Err != nil && cs.Pattern == "static-precondition" && P.Header != nil {
+			// the file server's answer is malformed with or without gzip in
+			// front of it: judged on the gzip sites alone
+			for _, v := range variants[:2] {
+				G := k.Do("GET", cs.request(v.host()))
+				c.Eval(1)
+				if G.Err != nil && G.Header != nil {
+					rn.mu.Lock()
+					c.Violation("C18/content-length-wrong/precondition-failed", fmt.Sprintf("status %d to a conditional request whose precondition fails announces Content-Encoding %q and Content-Length %q and then sends %d body bytes: %v", G.Status, G.Header.Get("Content-Encoding"), G.Header.Get("Content-Length"), len(G.Body), G.Err),
+						rn.witness(cs, v, P, G, nil))
+					rn.mu.Unlock()
+				}
+			}
+			rn.gate.RUnlock()
+			continue
 		}
 		if P.Err != nil {
 			rn.gate.RUnlock()
